@@ -32,8 +32,9 @@ ASSUMPTIONS = [
     "clusters are excluded by the statement",
 ]
 BOUND = {
-    "quick": "10 distances x 8 layouts x 3 HG patterns x 3 positions x "
-    "{AMBER, PARSE, + one seed-chosen} x {default, --nodebump --noopt}; "
+    "quick": "10 distances x 10 layouts (two differ in the serial-number "
+    "column only) x 3 HG patterns x 3 positions x {AMBER, PARSE, CHARMM, + "
+    "one seed-chosen} x {default, --nodebump --noopt}; "
     "rigid placements: 5 distances x 24 axis orientations x 8 shifts of "
     "0.25 A along the S-S axis; two pairs in one structure (4 x 4 distance "
     "combinations x 3 positions)",
